@@ -65,6 +65,7 @@ type Thread struct {
 	evLabel string   // label of the event in progress ("" = none)
 	evIdx   int      // index of the event in progress
 	touched []uintptr
+	pendingEnd bool  // event finished, clock not yet settled (see flushEvents)
 	nextObj []uintptr // objects named at the point the thread is parked at
 }
 
@@ -144,7 +145,7 @@ type Options struct {
 	Workers     int           // parallel explorers (default 16)
 	MaxExecs    int64         // cap on executions (0 = none); hitting it makes the exploration non-exhaustive
 	NoStatePruning bool       // disable happens-before state-key pruning (plain bounded DFS)
-	ReplayEvery int           // replay 1 in N executions to prove determinism (default 64; 0 = default, -1 = never)
+	ReplayEvery int           // replay 1 in N executions (same outcome, same choice points, same state keys) to prove determinism (default 16; 0 = default, -1 = never)
 }
 
 func (o *Options) defaults() {
@@ -161,7 +162,7 @@ func (o *Options) defaults() {
 		o.Workers = 16
 	}
 	if o.ReplayEvery == 0 {
-		o.ReplayEvery = 64
+		o.ReplayEvery = 16
 	}
 }
 
@@ -312,15 +313,39 @@ func (s *Sched) touch(t *Thread, o uintptr) {
 	if o == 0 || t.evLabel == "" {
 		return
 	}
-	t.vc = joinVC(t.vc, s.objVC[o])
+	// The clock join and publication happen in flushEvents at the next quiescent
+	// point: a goroutine woken out of a real blocking channel operation runs
+	// concurrently with its waker until both park, and doing the bookkeeping in
+	// arrival order would make the state keys depend on that race.
 	t.touched = append(t.touched, o)
-	s.objVC[o] = append(s.objVC[o][:0], t.vc...)
 }
 
+// endEvent marks the thread's event in progress as finished; its clock is
+// settled by flushEvents once every goroutine is parked again.
 func (s *Sched) endEvent(t *Thread) {
 	if t.evLabel == "" {
 		return
 	}
+	t.pendingEnd = true
+}
+
+// flushEvents settles the events that finished since the last quiescent point,
+// in a schedule-determined order: the thread the scheduler resumed first (what
+// the others did after waking was caused by it), then ascending thread ids.
+// Called at quiescence under s.mu.
+func (s *Sched) flushEvents() {
+	if s.cur != nil && s.cur.pendingEnd {
+		s.settle(s.cur)
+	}
+	for _, t := range s.threads {
+		if t.pendingEnd {
+			s.settle(t)
+		}
+	}
+}
+
+func (s *Sched) settle(t *Thread) {
+	t.pendingEnd = false
 	for _, o := range t.touched {
 		if o != 0 {
 			t.vc = joinVC(t.vc, s.objVC[o])
@@ -632,6 +657,7 @@ func (s *Sched) Run() Status {
 		default:
 		}
 		s.mu.Lock()
+		s.flushEvents()
 		if s.redundant {
 			s.mu.Unlock()
 			return Redundant
